@@ -494,6 +494,11 @@ func (in *vc06Inst) offer(b []byte, payload []byte, hasPayload bool, full bool) 
 		for _, p := range tx.Previous() {
 			mt.prevs = append(mt.prevs, vc06Ref(p))
 		}
+		if ins, _ := vc06Interpret(b); len(ins) > 0 {
+			mt.content = vc06Content(ins[0])
+		} else {
+			mt.content = sha256.Sum256(b)
+		}
 		in.model.admit(mt, payload, hasPayload)
 	}
 	if out.Admitted && out.AddErr != "" {
@@ -643,4 +648,71 @@ func vc06NotifyClass(got, want []string) string {
 		return "fewer-than-expected"
 	}
 	return "different"
+}
+
+// ---------------------------------------------------------------- liberal re-encodings of one signed triple
+
+const vc06B64URL = "ABCDEFGHIJKLMNOPQRSTUVWXYZabcdefghijklmnopqrstuvwxyz0123456789-_"
+
+// vc06Reencodings renders the SAME signed content (protected header bytes, payload, signature) of a canonical compact
+// transaction in every other way a liberal JWS parser may accept. Keys are stable variant names.
+func vc06Reencodings(compact []byte) map[string][]byte {
+	seg := strings.Split(string(compact), ".")
+	if len(seg) != 3 {
+		panic("not a compact JWS")
+	}
+	out := map[string][]byte{}
+	join := func(a, b, c string) []byte { return []byte(a + "." + b + "." + c) }
+	with := func(i int, v string) []byte {
+		x := []string{seg[0], seg[1], seg[2]}
+		x[i] = v
+		return join(x[0], x[1], x[2])
+	}
+	for i := 0; i < 3; i++ {
+		for wn, w := range map[string]string{"cr": "\r", "lf": "\n", "crlf": "\r\n"} {
+			if len(seg[i]) > 5 {
+				out[fmt.Sprintf("%s-inside-seg%d", wn, i)] = with(i, seg[i][:5]+w+seg[i][5:])
+			}
+			out[fmt.Sprintf("%s-start-seg%d", wn, i)] = with(i, w+seg[i])
+			out[fmt.Sprintf("%s-end-seg%d", wn, i)] = with(i, seg[i]+w)
+		}
+		if len(seg[i]) > 5 {
+			out[fmt.Sprintf("space-inside-seg%d", i)] = with(i, seg[i][:5]+" "+seg[i][5:])
+			out[fmt.Sprintf("lflf-inside-seg%d", i)] = with(i, seg[i][:5]+"\n\n"+seg[i][5:])
+		}
+		if pad := (4 - len(seg[i])%4) % 4; pad > 0 {
+			out[fmt.Sprintf("padded-seg%d", i)] = with(i, seg[i]+strings.Repeat("=", pad))
+			// non-zero trailing bits: the last character carries 4 (len%4==2) or 2 (len%4==3) unused low bits
+			last := strings.IndexByte(vc06B64URL, seg[i][len(seg[i])-1])
+			if last >= 0 && last|1 != last {
+				out[fmt.Sprintf("trailing-bits-seg%d", i)] = with(i, seg[i][:len(seg[i])-1]+string(vc06B64URL[last|1]))
+			}
+		}
+		if std := strings.NewReplacer("-", "+", "_", "/").Replace(seg[i]); std != seg[i] {
+			out[fmt.Sprintf("std-alphabet-seg%d", i)] = with(i, std)
+		}
+	}
+	c := string(compact)
+	pad := func(x string) string { return x + strings.Repeat("=", (4-len(x)%4)%4) }
+	out["padded-all"] = join(pad(seg[0]), pad(seg[1]), pad(seg[2]))
+	for wn, w := range map[string]string{"space": " ", "tab": "\t", "cr": "\r", "lf": "\n", "crlf": "\r\n"} {
+		out[wn+"-before"] = []byte(w + c)
+		out[wn+"-after"] = []byte(c + w)
+	}
+	out["trailing-dot"] = []byte(c + ".")
+	out["extra-segment"] = []byte(c + ".AAAA")
+	out["extra-empty-segments"] = []byte(c + "..")
+	j := func(v any) []byte { b, _ := json.Marshal(v); return b }
+	out["json-flattened"] = j(map[string]any{"payload": seg[1], "protected": seg[0], "signature": seg[2]})
+	out["json-flattened-unprotected-header"] = j(map[string]any{"payload": seg[1], "protected": seg[0], "signature": seg[2], "header": map[string]any{"x": "y"}})
+	out["json-general"] = j(map[string]any{"payload": seg[1], "signatures": []any{map[string]any{"protected": seg[0], "signature": seg[2]}}})
+	out["json-general-unprotected-header"] = j(map[string]any{"payload": seg[1], "signatures": []any{map[string]any{"protected": seg[0], "signature": seg[2], "header": map[string]any{"kid": "x"}}}})
+	out["json-flattened-spaced"] = []byte("{ \"protected\" : \"" + seg[0] + "\" ,\n \"payload\" : \"" + seg[1] + "\" , \"signature\" : \"" + seg[2] + "\" }")
+	out["json-flattened-padded"] = j(map[string]any{"payload": pad(seg[1]), "protected": pad(seg[0]), "signature": pad(seg[2])})
+	for k, v := range out {
+		if bytes.Equal(v, compact) {
+			delete(out, k)
+		}
+	}
+	return out
 }
